@@ -28,6 +28,16 @@ def _func(module, text, note_extra=""):
     }
 
 
+def _disk(text, note_extra=""):
+    return {
+        "engine": "disk",
+        "technique": "real executions recorded at file-operation level (LD_PRELOAD), every crash / sampled power-loss directory reconstructed offline and recovered with the real code; the observations are crash events of the recorded history validated by TLC against the TLA+ specification Mv2Core (TCrash: recovered state must be the pre- or post-state of the in-flight call)",
+        "text": text,
+        "note": "Trusts TLC, the recorder shim (it must see every mutation), the offline reconstruction (lib/fsstate.py), the crash models stated in the evidence assumptions, and the harness projection. Five fixed histories in the quick tier, 24 more random ones in the thorough tier. Known genuine defects (in-place WAL growth, chunked puts that are not atomic, in-place ticket rewrite, torn log tail) are reported as KNOWN-FINDING by structural signature. " + note_extra,
+        "design_ref": "DESIGN.md §4.3, §5, §6",
+    }
+
+
 ENGINES = [
     {"name": "walring", "path": "lib/eng_walring.py", "serves_properties": ["C05"],
      "kind_free_text": "WalRing/WalAbs TLA+ models; transition tour of the TLC state graph replayed on the real EmbeddedWal; random real runs validated by TLC"},
@@ -38,6 +48,8 @@ ENGINES.append({"name": "lock", "path": "lib/eng_lock.py", "serves_properties": 
                 "kind_free_text": "Mv2Lock TLA+ model (processes, inodes, flock table, copy-and-rename commit) checked exhaustively; transition tour + random schedules stepped on real handles with an independent flock probe; recordings validated by TLC (Trace_Mv2Lock)"})
 ENGINES.append({"name": "func", "path": "lib/eng_func.py", "serves_properties": ["C31", "C32", "C35", "C37"],
                 "kind_free_text": "TLA+ transcriptions of self-contained algorithms (FooterScan, QueryLang, Snippet, Adaptive) model-checked against the property's own statement; abstract cases executed on the real functions and judged by TLC (Trace_Func)"})
+ENGINES.append({"name": "disk", "path": "lib/eng_disk.py", "serves_properties": ["C02", "C03", "C04", "C22"],
+                "kind_free_text": "LD_PRELOAD recorder of file mutations; offline reconstruction of every process-crash and sampled power-loss directory; real recovery (open, second open, verify, doctor, read-only) on each; crash events validated by TLC against Mv2Core (TCrash)"})
 NOT_YET = "check not built yet in this revision of the machinery (see DESIGN.md §12 for the build order)"
 NOT_APPLICABLE = {
     "C30": "pure encode/decode fidelity of byte layouts (bincode TOC, header, footer, time index): a TLA+ model would have to re-implement the codecs; outside what state-machine specification decides (DESIGN.md §7)",
@@ -71,6 +83,10 @@ CLAIMED = {
     "C32": _func("QueryLang", "The recursive-descent parser is transcribed (implicit AND, nesting limit, error returns). TLC checks Eval(Parse(Show(ast))) = Eval(ast) for every AST of depth 2 over 3-4 atoms and every document (NOT > AND > OR). Well-formed queries printed from reference ASTs (exhaustive depth 2, random to depth 5, mixed-case keywords, words/phrase/field terms) must parse and match each of 8-16 documents exactly as the AST does on the real parser+evaluator; every token string up to length 4-5 must return ok or InvalidQuery (totality); nesting depths up to 10^5-10^6 run in a subprocess each and must return InvalidQuery beyond the limit, never crash.", "Outcome/meaning of ill-formed strings is compared with the transcription only as drift (the property does not fix it). Wildcards and date ranges are not modelled."),
     "C35": _func("Snippet", "compute_snippet_slices is transcribed with exact byte arithmetic over texts of 1-4-byte characters, terminators, newlines and spaces. TLC checks the contract (non-empty, inside the text, on character boundaries, strictly increasing, non-overlapping, at most max) for every text of up to 3-4 characters, occurrence lists (also out of bounds, unordered), windows and maxima including 0. The same and random longer cases (to 90 characters) run on the real function; TLC checks the contract on the real output and that slicing never panics.", "Equality with the transcription's exact slices is reported as drift only; the merge gap (20 bytes) is 1 in the exhaustive model so that multi-slice results are reachable."),
     "C37": _func("Adaptive", "The absolute and relative strategies and min-max normalisation are transcribed over dyadic scores (exact in f32). TLC checks the bounds, threshold and normalisation contracts for every score list of up to 4-5 values (unsorted too), thresholds and min_results. On the real functions: the cut-off must equal the transcription's and satisfy the threshold contract (abs/rel); cliff, elbow and combined strategies must satisfy the bounds contract; normalised scores must be exactly (s-min)/range, in [0,1], maximum at 1.", "Scores are restricted to multiples of 1/8 with a power-of-two range so that f32 arithmetic is exact; NaN/infinite scores and the numeric internals of elbow/cliff are outside what this technique judges."),
+    "C02": _disk("Every file-system mutation of every call in the recorded histories (create, put incl. chunked and WAL-growing, update, delete, commit, drop, apply_ticket, vacuum, doctor, open-time recovery) is a crash point: the directory after that prefix of operations is rebuilt offline, the real Memvid::open runs on it, and TLC requires the recovered frame table (ids, URIs, status, payload ids, embeddings, links) to be the table before or the table after the in-flight call, open not to fail, and the ticket to be one of the two."),
+    "C03": _disk("At sampled file operations the directory a power loss could leave is rebuilt: un-synced writes of an inode dropped entirely, cut at every prefix, with any single one missing, or with the last one torn at half; un-synced renames lost or kept; the other inodes durable or volatile. The real open runs on each and TLC requires the same two-state rule, which implies that every call that returned (its log record or commit was fsynced) is present.", "Ordering obligations are not stated separately: a missing fsync shows up as a power-loss state that loses an acknowledged call."),
+    "C04": _disk("Histories leave pending log records (handle lost), then open: every mutation of that recovery is a crash point (process and power), judged as above with the open as the in-flight call; after every successful recovery the file is closed and opened again and the frame table must not change (second_same)."),
+    "C22": _disk("Every reconstructed directory (crash-left, power-loss, torn) is fed to open, a second open, timeline, verify, doctor + verify + doctor + open on a copy, and open_read_only + verify on a copy, each under catch_unwind with a 60 s watchdog; TLC rejects any recording in which one of them panicked or hung.", "Claimed for the specification-generated family of files only (DESIGN 6 C22): unstructured random bytes are not generated by this technique."),
     "C05": {
         "engine": "walring",
         "technique": "TLA+ cell-level model (WalRing) exhaustively checked by TLC + refinement to WalAbs; every TLC transition replayed on the real EmbeddedWal; recorded real runs validated against WalAbs by TLC",
